@@ -43,6 +43,7 @@ import (
 	"sort"
 	"strings"
 	"sync"
+	"syscall"
 	"testing"
 	"testing/iotest"
 	"time"
@@ -70,6 +71,7 @@ type c01case struct {
 	Buf       int    `json:"buf,omitempty"`       // read-buffer size (0 in a replay = all sizes)
 	WithQual  bool   `json:"with_quality"`
 	Pad       int    `json:"pad,omitempty"`     // e3sweep: sequence length of the padding record
+	PadId     int    `json:"padid,omitempty"`   // e3sweep: extra characters in the padding record's id
 	Reader    string `json:"reader,omitempty"`  // pipe/e4: universal | format | kseq
 	Workers   int    `json:"workers,omitempty"` // pipe/e4
 	Ext       string `json:"ext,omitempty"`     // pipe/e3/e4: "", .gz, .bz2, .xz, .zst
@@ -447,6 +449,18 @@ func c01gen(f string, shape, pos int) c01rec {
 	panic("c01: unknown format " + f)
 }
 
+// c01padLen = byte length of the padding record of an e3sweep case
+func c01padLen(c c01case) int {
+	e := 1
+	if c.CRLF {
+		e = 2
+	}
+	if c.Fmt == "fasta" {
+		return 1 + 3 + c.PadId + e + c.Pad + e
+	}
+	return 1 + 3 + c.PadId + e + c.Pad + e + 1 + e + c.Pad + e
+}
+
 type c01file struct {
 	recs []c01rec
 	data []byte
@@ -467,12 +481,12 @@ func c01build(c c01case) c01file {
 	}
 	if c.Part == "e3sweep" {
 		// padding record in front: moves the tail over kseq's 4096-byte refill boundary
-		p := c01rec{Id: "pad", Seq: c01seq(99, 99, c.Pad)}
+		p := c01rec{Id: "pad" + strings.Repeat("x", c.PadId), Seq: c01seq(99, 99, c.Pad)}
 		if c.Fmt == "fasta" {
-			p.Text = ">pad\n" + c01fold(p.Seq, 0)
+			p.Text = ">" + p.Id + "\n" + c01fold(p.Seq, 0)
 		} else {
 			p.Qual = bytes.Repeat([]byte{'I' - 33}, c.Pad)
-			p.Text = "@pad\n" + p.Seq + "\n+\n" + strings.Repeat("I", c.Pad) + "\n"
+			p.Text = "@" + p.Id + "\n" + p.Seq + "\n+\n" + strings.Repeat("I", c.Pad) + "\n"
 		}
 		f.recs = append(f.recs, p)
 		sb.WriteString(eol(p.Text))
@@ -569,9 +583,17 @@ type c01viol struct{ key, desc string }
 
 // c01compare checks the delivered records against truth. chunkOf[i] / lastOfChunk[i] describe
 // where observed record i came from (nil when unknown).
-func c01compare(site string, c c01case, f c01file, got []c01obs, lastOfChunk []bool, withQual bool, checkSource string) []c01viol {
+// site = where record-content classes are attributed (the chunk parser), ssite = structural classes
+// (record count) of the entry point that delivered the records.
+func c01compare(site, ssite string, c c01case, f c01file, got []c01obs, lastOfChunk []bool, withQual bool, checkSource string) []c01viol {
 	var out []c01viol
-	add := func(class, desc string) { out = append(out, c01viol{site + "/" + class, desc}) }
+	add := func(class, desc string) {
+		st := site
+		if strings.HasPrefix(class, "records-") {
+			st = ssite
+		}
+		out = append(out, c01viol{st + "/" + class, desc})
+	}
 	if len(got) != len(f.recs) {
 		ids := []string{}
 		for _, g := range got {
@@ -878,7 +900,7 @@ func (x *c01ctx) evalE1(c c01case, f c01file, payload []byte, ref []c01chunk, ha
 			continue
 		}
 		r.Count("records_parsed", int64(len(obs)))
-		x.report(cc, c01compare(site, cc, f, obs, last, wq, "c01"))
+		x.report(cc, c01compare(site, site, cc, f, obs, last, wq, "c01"))
 	}
 	return chunks
 }
@@ -1064,7 +1086,13 @@ func (x *c01ctx) evalPipe(c c01case, f c01file) {
 	if c.Reader == "kseq" {
 		wq = true // the kseq reader has no option to skip qualities
 	}
-	x.report(c, c01compare(site, c, f, obs, nil, wq, ""))
+	csite := "ReadFastSeqFromFile" // kseq reader: one site for both formats
+	if c.Reader != "kseq" {
+		_, csite = c01parser(c.Fmt, wq) // record content is produced by the chunk parser
+	} else {
+		site = csite
+	}
+	x.report(c, c01compare(csite, site, c, f, obs, nil, wq, ""))
 }
 
 // ---------------------------------------------------------------- corpus enumeration
@@ -1093,6 +1121,14 @@ func c01range(n int) []int {
 	}
 	return o
 }
+
+// process CPU time (diagnostic counters cpu_ms_*: the machine is shared, wall time says little)
+func c01cpu() time.Duration {
+	var ru syscall.Rusage
+	syscall.Getrusage(syscall.RUSAGE_SELF, &ru)
+	return time.Duration(ru.Utime.Nano() + ru.Stime.Nano())
+}
+func c01cpuSince(t0 time.Duration) int64 { return (c01cpu() - t0).Milliseconds() }
 
 // 3 MiB file for E4: records cycle through every shape.
 func c01big(f string) (c01file, c01case) {
@@ -1166,12 +1202,19 @@ func TestVerifC01(t *testing.T) {
 	for _, f := range formats {
 		full[f] = c01range(c01nShapes(f))
 	}
+	// FASTQ full product: the two short sequence lengths only (the 61-base shapes are in the quick set)
+	full["fastq"] = nil
+	for sh := 0; sh < c01nFastq(); sh++ {
+		if sh%len(c01fqLens) != 2 {
+			full["fastq"] = append(full["fastq"], sh)
+		}
+	}
 	quick := map[string][]int{
-		// fasta: 1/none/nodef, 61/fold60/def, 121/fold7/'>'def, 60/none/def, 59/fold7/nodef, 61/none/'>'def
+		// fasta: shape = layout + 11*defkind
 		"fasta": {0, 11 + 5, 22 + 10, 11 + 2, 7, 22 + 3},
 		// fastq: shape = len + 3*(qk + 4*(sk + 2*hk))
 		"fastq": {0, 1 + 3*(1+4*(0+2*0)), 1 + 3*(2+4*(1+2*1)), 1 + 3*(3+4*(1+2*2)), 0 + 3*(1+4*(0+2*2)), 2 + 3*(0+4*(1+2*1)), 1 + 3*(1+4*(1+2*2))},
-		// flat: tax|sci<<1|def2<<2 + 8*len
+		// flat: tax | sci<<1 | def2<<2 + 8*len
 		"genbank": {0, 3, 1 + 4 + 8, 2 + 16},
 		"embl":    {0, 3, 1 + 4 + 8, 2 + 16},
 	}
@@ -1181,22 +1224,9 @@ func TestVerifC01(t *testing.T) {
 		"genbank": {0, 3},
 		"embl":    {0, 3},
 	}
-	main := quick
-	if thorough {
-		main = full
-	}
-	r.Bound("buffer_sizes", "every size 2..len(file)+1")
-	r.Bound("records_per_file", "1 and 3")
-	r.Bound("shapes_main", map[string]int{"fasta": len(main["fasta"]), "fastq": len(main["fastq"]), "genbank": len(main["genbank"]), "embl": len(main["embl"])})
-	r.Bound("shapes_reduced", map[string]int{"fasta": len(reduced["fasta"]), "fastq": len(reduced["fastq"]), "genbank": len(reduced["genbank"]), "embl": len(reduced["embl"])})
-	r.Bound("transports_main", "whole, byte-by-byte")
-	r.Bound("transports_reduced", "every 2-piece split, Buf(plain), gzip, bzip2, xz, zstd through Buf")
-
-	k := 0
-	files := 0
-	only := os.Getenv("C01_ONLY") // development aid: restrict to one phase, e.g. "main:genbank" (never set by ./check)
-	want := func(phase, f string) bool {
-		return only == "" || only == phase || only == phase+":"+f
+	type plan struct {
+		v      c01case
+		shapes []int
 	}
 	variants := func(f string) []c01case {
 		vs := []c01case{{Fmt: f}, {Fmt: f, CRLF: true}}
@@ -1205,19 +1235,55 @@ func TestVerifC01(t *testing.T) {
 		}
 		return vs
 	}
+	mainPlans := map[string][]plan{}
+	for _, f := range formats {
+		for _, v := range variants(f) {
+			mainPlans[f] = append(mainPlans[f], plan{v, quick[f]})
+			if thorough && !v.RelHdr {
+				mainPlans[f] = append(mainPlans[f], plan{v, full[f]})
+			}
+		}
+	}
+	kseqSet := reduced
+	if thorough {
+		kseqSet = quick
+	}
+	r.Bound("buffer_sizes", "every size 2..len(file)+1")
+	r.Bound("records_per_file", "1 and 3")
+	r.Bound("shapes_quick", map[string]int{"fasta": len(quick["fasta"]), "fastq": len(quick["fastq"]), "genbank": len(quick["genbank"]), "embl": len(quick["embl"])})
+	if thorough {
+		r.Bound("shapes_full", map[string]int{"fasta": len(full["fasta"]), "fastq": len(full["fastq"]), "genbank": len(full["genbank"]), "embl": len(full["embl"])})
+	}
+	r.Bound("shapes_reduced", map[string]int{"fasta": len(reduced["fasta"]), "fastq": len(reduced["fastq"]), "genbank": len(reduced["genbank"]), "embl": len(reduced["embl"])})
+	r.Bound("transports_main", "whole, byte-by-byte")
+	r.Bound("transports_reduced", "every 2-piece split, Buf(plain), gzip, bzip2, xz, zstd through Buf")
+
+	k := 0
+	only := os.Getenv("C01_ONLY") // development aid: restrict to one phase, e.g. "main:genbank" (never set by ./check)
+	want := func(phase, f string) bool {
+		return only == "" || only == phase || only == phase+":"+f
+	}
 
 	// ---- E1 main corpus: whole + byte-by-byte, every buffer size
+	seenFile := map[string]bool{}
 	for _, f := range formats {
 		if !want("main", f) {
 			continue
 		}
-		for _, nrec := range []int{1, 3} {
-			for _, v := range variants(f) {
+		for _, pl := range mainPlans[f] {
+			for _, nrec := range []int{1, 3} {
 				stop := false
-				c01tuples(main[f], nrec, func(tp []int) {
+				c01tuples(pl.shapes, nrec, func(tp []int) {
 					if stop {
 						return
 					}
+					c := pl.v
+					c.Part, c.Shapes = "e1", tp
+					id := fmt.Sprintf("%s|%v|%v|%v", f, c.CRLF, c.RelHdr, tp)
+					if seenFile[id] {
+						return // the quick set is a subset of the full set
+					}
+					seenFile[id] = true
 					mine := r.Mine(k)
 					k++
 					if !mine {
@@ -1227,17 +1293,14 @@ func TestVerifC01(t *testing.T) {
 						stop = true
 						return
 					}
-					c := v
-					c.Part, c.Shapes = "e1", tp
 					file := c01build(c)
 					fh := fnv.New64a()
 					fh.Write(file.data)
 					r.State(fmt.Sprintf("file|%x", fh.Sum64()))
-					files++
 					r.Count("files_"+f, 1)
-					t0 := time.Now()
+					t0 := c01cpu()
 					x.sweep(c, file, []string{"whole", "bytes"})
-					r.Count("ms_main_"+f, time.Since(t0).Milliseconds())
+					r.Count("cpu_ms_main_"+f, c01cpuSince(t0))
 				})
 				if stop {
 					return
@@ -1246,7 +1309,7 @@ func TestVerifC01(t *testing.T) {
 		}
 	}
 
-	// ---- E1 reduced corpus: every 2-piece split and the compressed transports; pipeline; kseq
+	// ---- E1 reduced corpus: every 2-piece split and the compressed transports; pipeline
 	for _, f := range formats {
 		if !want("reduced", f) {
 			continue
@@ -1269,6 +1332,9 @@ func TestVerifC01(t *testing.T) {
 					return file
 				}
 				for _, tr := range []string{"split", "buf", "gzip", "bzip2", "xz", "zstd"} {
+					if tr == "split" && (f == "genbank" || f == "embl") && (c.CRLF || c.RelHdr) {
+						continue // n^2 runs per file: flat files in the LF variant only
+					}
 					mine := r.Mine(k)
 					k++
 					if !mine {
@@ -1279,16 +1345,16 @@ func TestVerifC01(t *testing.T) {
 						return
 					}
 					r.Count("reduced_file_transport_"+tr, 1)
-					t0 := time.Now()
+					t0 := c01cpu()
 					x.sweep(c, get(), []string{tr})
-					r.Count("ms_reduced_"+tr+"_"+f, time.Since(t0).Milliseconds())
+					r.Count("cpu_ms_reduced_"+tr+"_"+f, c01cpuSince(t0))
 				}
 				// production readers on a real file
 				mine := r.Mine(k)
 				k++
 				if mine {
-					t0 := time.Now()
-					defer func() { r.Count("ms_pipe", time.Since(t0).Milliseconds()) }()
+					t0 := c01cpu()
+					defer func() { r.Count("cpu_ms_pipe", c01cpuSince(t0)) }()
 					for _, ext := range []string{"", ".gz", ".bz2", ".xz", ".zst"} {
 						for _, rdr := range []string{"universal", "format"} {
 							if rdr == "universal" && c.Fmt == "genbank" && c.RelHdr && c.CRLF {
@@ -1301,15 +1367,41 @@ func TestVerifC01(t *testing.T) {
 							}
 						}
 					}
-					if f == "fasta" || f == "fastq" {
-						for _, ext := range []string{"", ".gz"} {
-							pc := c
-							pc.Part, pc.Reader, pc.Ext, pc.Workers, pc.WithQual = "e3", "kseq", ext, 1, true
-							x.evalPipe(pc, get())
-							r.Count("kseq_reads", 1)
-						}
-					}
 				}
+			})
+			if stop {
+				return
+			}
+		}
+	}
+
+	// ---- E3: kseq C reader on whole files (plain and gzip)
+	for _, f := range []string{"fasta", "fastq"} {
+		if !want("e3", f) {
+			continue
+		}
+		for _, crlf := range []bool{false, true} {
+			stop := false
+			c01tuples(kseqSet[f], 3, func(tp []int) {
+				if stop {
+					return
+				}
+				mine := r.Mine(k)
+				k++
+				if !mine {
+					return
+				}
+				if r.Expired() {
+					stop = true
+					return
+				}
+				t0 := c01cpu()
+				for _, ext := range []string{"", ".gz"} {
+					c := c01case{Part: "e3", Fmt: f, Shapes: tp, CRLF: crlf, Reader: "kseq", Ext: ext, Workers: 1, WithQual: true}
+					x.evalPipe(c, c01build(c))
+					r.Count("kseq_reads", 1)
+				}
+				r.Count("cpu_ms_e3", c01cpuSince(t0))
 			})
 			if stop {
 				return
@@ -1337,30 +1429,33 @@ func TestVerifC01(t *testing.T) {
 					stop = true
 					return
 				}
+				t0 := c01cpu()
 				c := c01case{Part: "e3sweep", Fmt: f, Shapes: tp, CRLF: crlf, Reader: "kseq", Workers: 1, WithQual: true}
 				c.Pad = 1
-				tail := len(c01build(c).data)
-				c.Pad = 4096
-				over := len(c01build(c).data) - 4096 // bytes beyond the boundary with a 4096-base pad
-				_ = tail
+				f1 := c01build(c)
+				tail := len(f1.data) - f1.ends[0]
 				exts := []string{""}
 				if thorough {
 					exts = []string{"", ".gz"}
 				}
-				// pad lengths that put the boundary at every offset of the tail (and a little before)
-				lo, hi := 4096-over-4, 4096
-				if f == "fastq" {
-					// the pad appears twice (sequence + quality)
-					lo = (4096-over)/2 - 4
-					hi = 2048 + 8
-				}
-				for pad := lo; pad <= hi; pad++ {
-					for _, ext := range exts {
-						c.Pad, c.Ext = pad, ext
-						x.evalPipe(c, c01build(c))
-						r.Count("kseq_boundary_sweep_reads", 1)
+				seen := map[int]bool{}
+				for e := 0; e <= 1; e++ {
+					for pad := 1; pad <= 4100; pad++ {
+						c.Pad, c.PadId = pad, e
+						o := 4096 - c01padLen(c)
+						if o < -2 || o > tail+2 || seen[o] {
+							continue
+						}
+						seen[o] = true
+						for _, ext := range exts {
+							c.Ext = ext
+							x.evalPipe(c, c01build(c))
+							r.Count("kseq_boundary_sweep_reads", 1)
+						}
 					}
 				}
+				r.Count("kseq_boundary_offsets", int64(len(seen)))
+				r.Count("cpu_ms_e3sweep", c01cpuSince(t0))
 			})
 			if stop {
 				return
@@ -1393,9 +1488,11 @@ func TestVerifC01(t *testing.T) {
 						big, _ = c01big(f)
 						built = true
 					}
+					t0 := c01cpu()
 					c := c01case{Part: "e4", Fmt: f, Reader: rdr, Ext: ext, Workers: w, WithQual: true}
 					x.evalPipe(c, big)
 					r.Count("e4_reads", 1)
+					r.Count("cpu_ms_e4", c01cpuSince(t0))
 				}
 			}
 		}
